@@ -787,7 +787,7 @@ def judge(case: dict[str, Any], run: dict[str, Any], res: Result) -> bool:
         return bad  # a fault changes what the token shows (a slot drops out, an object hides): the content oracle does not apply
     try:
         root = ET.fromstring(doc)
-    except ET.ParseError:
+    except (ET.ParseError, UnicodeError):  # UnicodeError: octets in the file that are not UTF-8 (read back with surrogateescape)
         if case["variant"] == "boundary-id":
             res.bump("boundary:unescaped-id-not-wellformed")  # DESIGN §5: recorded witness, not judged
             return bad
@@ -955,7 +955,7 @@ def et_tree(e: ET.Element) -> dict[str, Any]:
 def et_read(text: str) -> Any:
     try:
         return {"tree": et_tree(ET.fromstring(text))}
-    except ET.ParseError:
+    except (ET.ParseError, UnicodeError):
         return "malformed"
 
 
